@@ -320,6 +320,8 @@ pub0_sock_send(void *arg, nni_aio *aio)
 	nni_stat_inc(&sock->stat_tx_direct, direct);
 #endif
 	nni_mtx_unlock(&sock->mtx);
+	// the message is ours now: do not leave a dangling pointer in the aio
+	nni_aio_set_msg(aio, NULL);
 	nng_msg_free(msg);
 	nni_aio_finish(aio, 0, len);
 }
